@@ -29,6 +29,18 @@ CHECKS = {
  "C08": ("fault_enumeration", "§10 C08",
    "Owner encrypts (subject / wrapped whole, every subject case), element travels through the wire; faults: tampering of each field (ciphertext, nonce, auth tag, declared digest), bit flips anywhere in the encoding, wrong key, Byzantine key holder mis-declaring the digest (bare and node subject); a sub-family enumerates every single-bit flip of every field of small encrypted elements. Fault-free configuration checks identical round trip, digest kept, second encryption refused.",
    "deterministic simulation with field-tamper / bit-flip / wrong-key / mis-declare faults; per-element single-bit enumeration"),
+ "C09": ("exploration", "§10 C09",
+   "Signers (Schnorr, ECDSA, Ed25519; SSH variants in thorough) sign with and without metadata; holders add assertions, obscure the subject / sibling assertions / other signers' signature objects, replace the subject; Byzantine parties attach non-signature objects, unsigned and foreign-signed metadata wrappers and signatures over other digests; the verifier receives the envelope through the transport. Oracles: has/verify_signature_from against a model of who validly signed which subject digest, threshold arithmetic for distinct key lists and t in 1..n+1 and None, returned metadata covered by an outer signature of the same key (checked with the raw verifier).",
+   "deterministic multi-party simulation with wrong-key and Byzantine-signature faults vs. signer model"),
+ "C10": ("exploration", "§10 C10",
+   "Senders encrypt to recipient lists of size 1-5 (duplicates allowed; X25519, ML-KEM in thorough) in subject form, wrap-and-encrypt form and seal; recipients are added later; every listed and unlisted party tries to open its delivered copy; wrong sender/recipient keys and misrouted sealed envelopes for unseal.",
+   "deterministic multi-party simulation over recipient configurations with wrong-key / misroute faults"),
+ "C11": ("fault_enumeration", "§10 C11",
+   "Owner encrypts and splits under sampled policies (<=3 groups x <=4 members; more in thorough); custodians return shares through the transport; message loss decides which subset arrives - ALL subsets are enumerated when there are <=8 shares (<=12 in thorough); duplicated deliveries, foreign shares of a second split mixed in, boundary draws of the split RNG. Oracle: join = original decrypted subject iff the policy is met (pure subsets), never a different envelope and never a panic otherwise.",
+   "deterministic simulation with message loss/duplication/misrouting; exhaustive subset enumeration per split"),
+ "C12": ("exploration", "§10 C12",
+   "Holders produce proofs for target sets (single, multiple, multi-position, nested, root, absent) of documents from seeded histories and send them; the verifier holds only the root digest; proofs are tampered in flight (byte and structural mutations) or misrouted (proof for another document / other targets). Oracles: produced iff all targets present; produced proof accepted; accepted => same root digest and every target visible (judged by the independent recogniser); disclosed elements lie on root-to-target paths and innermost targets are elided.",
+   "deterministic multi-party simulation with tampered / misrouted proofs vs. model digest sets"),
  "C13": ("fault_enumeration", "§10 C13",
    "compress / compress_subject over every subject case (compressible, raw-stored and empty payloads, compressed element reused as subject of further assertions), stored, reloaded, uncompressed; faults: tampering of checksum/size/data/declared digest, bit flips (every bit of small encodings in the enumeration sub-family), misdirected writes and Byzantine mis-declared content. Oracles: identical after uncompress, same digest at every step, idempotent; under faults Err or the same visible content, never other data.",
    "deterministic simulation with field-tamper / bit-flip / misdirected-write / mis-declare faults; per-encoding single-bit enumeration"),
